@@ -111,7 +111,7 @@ func runC09(c *Ctx) {
 			continue
 		}
 		if fn.Pos().IsValid() && fn.Parent() == nil {
-			file := strings.TrimPrefix(c.P.SSA.Fset.Position(fn.Pos()).Filename, "/repo/")
+			file := strings.TrimPrefix(c.P.SSA.Fset.Position(fn.Pos()).Filename, repoDir+"/")
 			if anchorFiles[file] && len(fn.Blocks) > 0 {
 				roots = append(roots, fn)
 			}
@@ -164,8 +164,16 @@ func goTypeOfRoot(root string) string {
 
 func buildHarness(name string) (string, error) {
 	bin := verifDir + "/bin/" + name
-	_ = os.WriteFile(verifDir+"/harness/go.sum", mustRead("/repo/go.sum"), 0o644)
-	cmd := exec.Command("go", "build", "-o", bin, "./"+name)
+	_ = os.WriteFile(verifDir+"/harness/go.sum", mustRead(repoDir+"/go.sum"), 0o644)
+	args := []string{"build", "-o", bin}
+	if repoDir != "/repo" {
+		// development only (seed matrix against a scratch worktree): same harness, module replaced by that tree
+		mod := strings.Replace(string(mustRead(verifDir+"/harness/go.mod")), "=> /repo", "=> "+repoDir, 1)
+		_ = os.WriteFile(verifDir+"/harness/go.alt.mod", []byte(mod), 0o644)
+		_ = os.WriteFile(verifDir+"/harness/go.alt.sum", mustRead(repoDir+"/go.sum"), 0o644)
+		args = append(args, "-modfile=go.alt.mod")
+	}
+	cmd := exec.Command("go", append(args, "./"+name)...)
 	cmd.Dir = verifDir + "/harness"
 	out, err := cmd.CombinedOutput()
 	if err != nil {
